@@ -47,10 +47,8 @@ def expected_trace(c, v, t=None):
             out.extend(chain(by, registered, n))
             names = list(c.model.defaults_of(n).keys())
             for a in names:
-                if a == '_yatiml_extra':
-                    continue
                 if hasattr(x, a):
-                    rec(getattr(x, a))
+                    rec(getattr(x, a))       # (also the extra attributes: an object in there was built)
         elif n in by and type(x) is c.model.classes[n]:
             out.extend(chain(by, registered, n))        # enums and string-likes are savorized too
         elif isinstance(x, dict):
@@ -105,7 +103,10 @@ def explore(ctx):
 
     def hooked(spec):
         return any(c.get('savorize') is not None or c.get('recognize') is not None for c in spec)
-    for c in LC.gen_cases(ctx, ctx.budget(500, 12000), mutate_p=0.25, model_filter=hooked, prop='C10'):
+    import itertools
+    for c in itertools.chain(LC.gen_cases(ctx, ctx.budget(500, 12000), mutate_p=0.25, model_filter=hooked, prop='C10'),
+                             LC.class_key_faults(ctx, ctx.budget(150, 3000)),
+                             LC.alias_across_types(ctx, ctx.budget(20, 400))):
         cases.append(c)
         LC.record_distribution(ctx, c)
         by = c.model.by_name_spec
